@@ -64,6 +64,7 @@ Detail(e) ==
 \* ---- C14: containment ---------------------------------------------------------------------
 ContainClauses(e) ==
   Cl(e.outsideBefore # e.outsideAfter, "C14.outsideTouched")
+  \cup Cl(e.dstRootGone, "C14.destinationRootItselfRemoved") \cup Cl(e.dstRootGone, "C15.destinationRootItselfRemoved")
   \cup Cl(\E i \in DOMAIN e.after : e.after[i].t = "file" /\ e.after[i].c \in ToSet(e.secrets), "C14.bytesFromOutsideSourceRoot")
 
 \* ---- C16: include / exclude -------------------------------------------------------------------
